@@ -1023,7 +1023,7 @@ def _retry_with_patience(net, kw):
     violation; one that cannot be brought to converge is."""
     base = {k_: v_ for k_, v_ in kw.items() if k_ not in ("iter", "max_iter_hyd", "max_iter_therm", "max_iter_bidirect", "alpha",
                                                           "nonlinear_method", "reuse_internal_data")}
-    for extra in ({"iter": 1500}, {"iter": 4000, "alpha": 0.3, "nonlinear_method": "constant"}):
+    for extra in ({"iter": 600}, {"iter": 1500, "alpha": 0.3, "nonlinear_method": "constant"}):
         k = dict(base)
         k.update(extra)
         try:
@@ -1580,6 +1580,12 @@ def _exec_c06(trace, res):
                     net[t] = net[t].loc[perm]
             try:
                 pp.pipeflow(net, mode=mode, use_numba=var["use_numba"], **TIGHT)
+            except PipeflowNotConverged as e:
+                if _retry_with_patience(net, dict(TIGHT, mode=mode, use_numba=var["use_numba"])):
+                    res.count("probe:converged-with-larger-budget")
+                else:
+                    res.violate("C06", "C06/verdict-differs:ok-vs-%s@resolve-after-permutation" % type(e).__name__, label, vi)
+                    continue
             except Exception as e:
                 res.violate("C06", "C06/verdict-differs:ok-vs-%s@resolve-after-permutation" % type(e).__name__, label, vi)
                 continue
